@@ -32,6 +32,18 @@ let b64_chunks (keylen : int) (text : n list) : n list list =
   let cs = go 0 [] in
   if total > interior then cs @ [sub interior total] else cs
 
+(* phase 4: the same Write calls split into what enc.Write issues and what enc.Close issues *)
+let b64_parts (keylen : int) (text : n list) : n list list * n list list =
+  let all = b64_chunks keylen text in
+  let total = List.length text in
+  let interior = let i = keylen / 3 * 4 in if i > total then total else i in
+  if total > interior then
+    let rec split acc = function [x] -> (List.rev acc, [x]) | x :: t -> split (x :: acc) t | [] -> (List.rev acc, []) in
+    split [] all
+  else (all, [])
+
+let rec nat_of_small (i : int) : nat = if i <= 0 then O else S (nat_of_small (i - 1))
+
 let b01 b = if b then "1" else "0"
 
 let () = iter_lines (fun line ->
@@ -73,4 +85,64 @@ let () = iter_lines (fun line ->
       let rsa k hh s = k = fp && hh = h && s = sg && verdict = "1" in
       let r = pk_verify b64w sha256 rsa fp marshal (z_of_dec now) (z_of_dec expires) () sg in
       Printf.printf "pkv %s\n" (show_res b01 r)
+  (* ---- phase 4: the functions TRANSLATED from the Go source (Gen/C18gen.v) on the same cases ---- *)
+  | ["tuuid"; name] ->
+      Printf.printf "tuuid %s\n" (show_res hex_of_bytes (offline_NameToUUID md5 (bytes_of_hex name)))
+  | ["tdig"; who; sid; secret; key; h] ->
+      let sid = bytes_of_hex sid and secret = bytes_of_hex secret and key = bytes_of_hex key in
+      let hb = bytes_of_hex h in
+      let sha1 m = if m = sid @ secret @ key then hb else [] in
+      let r = if who = "bot" then bot_authDigest sha1 sid secret key else auth_authDigest sha1 sid secret key in
+      Printf.printf "tdig %s %s\n" who (show_res text_of r)
+  | ["tlb"; cs] ->
+      (* every Write call through the translated method (fuel len+1), then the translated Close *)
+      let chunks = chunks_of cs in
+      let ns_str ns = if ns = [] then "." else String.concat "," (List.map dec_of_z ns) in
+      let rec go line used out ns = function
+        | [] ->
+            (match user_lineBreaker_Close hash_writer line used out with
+             | Ok (((_, _), out'), err) -> if err then "err" else hex_of_bytes out' ^ " " ^ ns_str (List.rev ns)
+             | Panic -> "panic" | OutOfFuel -> "fuel")
+        | c :: rest ->
+            (match user_lineBreaker_Write hash_writer (nat_of_small (List.length c + 1)) line used out c with
+             | Ok (((line', used'), out'), (n, err)) -> if err then "err" else go line' used' out' (n :: ns) rest
+             | Panic -> "panic" | OutOfFuel -> "fuel") in
+      Printf.printf "tlb %s\n" (go (List.init 76 (fun _ -> n_of_int 0)) (z_of_int 0) [] [] chunks)
+  | ["tvs"; fp; key; sg; b64; h; verdict] ->
+      let key = bytes_of_hex key and sg = bytes_of_hex sg and b64 = bytes_of_hex b64 and h = bytes_of_hex h in
+      let fp = bytes_of_hex fp in
+      let payload = ref [] in
+      let (inner, last) = b64_parts (List.length key) b64 in
+      let b64w data k = if data = [] && k = key then inner else [] in
+      let b64c data = if data = key then last else [] in
+      let sha256 m = payload := m; h in
+      let rsa k hh s = k = fp && hh = h && s = sg && verdict = "1" in
+      let r = user_VerifySignature b64w b64c rsa fp sha256 key sg in
+      Printf.printf "tvs %s %s\n" (show_res b01 r) (hex_of_bytes !payload)
+  | ["tpkv"; fp; now; expires; der; sg; b64; h; verdict] ->
+      let sg = bytes_of_hex sg and b64 = bytes_of_hex b64 and h = bytes_of_hex h in
+      let fp = bytes_of_hex fp in
+      let marshal () = if der = "none" then None else Some (bytes_of_hex der) in
+      let parts k = b64_parts (List.length k) b64 in
+      let b64w data k = if data = [] && Some k = marshal () then fst (parts k) else [] in
+      let b64c data = if Some data = marshal () then snd (parts data) else [] in
+      let sha256 _ = h in
+      let rsa k hh s = k = fp && hh = h && s = sg && verdict = "1" in
+      let r = user_PublicKey_Verify (z_of_dec now) marshal b64w b64c rsa fp sha256 (z_of_dec expires) () sg in
+      Printf.printf "tpkv %s\n" (show_res b01 r)
+  | ["encr"; pkt; lk; id; data; kb; et; dtok; dkey; token] ->
+      (* server/auth encryptionResponse: hand model, translated function, and the AES key-length gate of Encrypt *)
+      let opt s = if s = "none" then None else Some (bytes_of_hex s) in
+      let data = bytes_of_hex data and token = bytes_of_hex token in
+      let rp = if pkt = "none" then None else Some (z_of_dec id, data) in
+      let scan d = match opt kb, opt et with Some a, Some b when d = data -> Some (a, b) | _ -> None in
+      let decrypt c = if Some c = opt et then opt dtok else if Some c = opt kb then opt dkey else None in
+      let lk = z_of_dec lk in
+      let m = match enc_response rp lk scan decrypt token with Some s -> "ok:" ^ hex_of_bytes s | None -> "err" in
+      let t = match auth_encryptionResponse rp lk scan decrypt token with
+        | Ok (s, false) -> "ok:" ^ hex_of_bytes s | Ok (_, true) -> "err" | Panic -> "panic" | OutOfFuel -> "fuel" in
+      let g = match encrypt_secret rp lk scan decrypt token with Some s -> "key:" ^ hex_of_bytes s | None -> "nokey" in
+      Printf.printf "encr %s %s %s\n" m t g
+  | ["aes"; len] ->
+      Printf.printf "aes %s %s\n" len (b01 (aes_key_ok (List.init (int_of_string len) (fun _ -> n_of_int 0))))
   | _ -> Printf.printf "?? %s\n" line)
